@@ -49,7 +49,7 @@ type Frame struct {
 	fn          *ssa.Function
 	c           *Contract
 	top         bool
-	anchors     bool                 // a callee executed in place by name ("option inline-callees"): its calls are anchors of the top contract's cuts
+	anchors     bool              // a callee executed in place by name ("option inline-callees"): its calls are anchors of the top contract's cuts
 	ownedHead   map[*ssa.Phi]bool // option owned-loop-slices: whether the loop variable shared memory with the caller at loop entry
 	ownedSeen   bool
 	sliceHead   map[*ssa.Phi]*SliceV // option loop-slice-windows: the value of each re-sliced loop variable at loop entry
@@ -731,7 +731,15 @@ func (fr *Frame) load(st *State, p Value) Value {
 					return c
 				}
 			}
-			nv := fr.v.symValue(fmt.Sprintf("%s!elem!%d", sanitize(q.Obj.Name), fr.v.fresh), t, q.Obj.Entry)
+			var nv Value
+			if fn := fr.functionalElem(st, q, t); fn != nil {
+				nv = fn
+				if fr.v.specDepth > 0 {
+					return nv // evaluated inside a specification (possibly under a quantifier): no facts added, nothing remembered
+				}
+			} else {
+				nv = fr.v.symValue(fmt.Sprintf("%s!elem!%d", sanitize(q.Obj.Name), fr.v.fresh), t, q.Obj.Entry)
+			}
 			if key != "" {
 				if st.uload == nil {
 					st.uload = map[string]Value{}
@@ -744,6 +752,56 @@ func (fr *Frame) load(st *State, p Value) Value {
 	}
 	unsup("load through %T", p)
 	return nil
+}
+
+// functionalElem: "option functional-nested-slices". The cells of an unmodelled slice of slices of scalar-sorted
+// elements ([][]Hash under "layer opaque Hash", [][]fr.Element under "layer ring") are functions of the index: the
+// length, the capacity and the contents of the inner slice at index t are select(lens, t), select(caps, t) and
+// select(cont, t) of three arrays that stand for the memory of the outer slice (one triple per version: a store into
+// the outer slice, into an inner slice read from it, or a havoc of either starts a new, unconstrained version). This
+// makes quantified specifications over the rows meaningful (forall l: len(x[l]) == ...) and lets them be
+// instantiated at the rows the code reads. Assumption (recorded): two rows read at indices that are not the same
+// term are distinct objects, so a write through one is not seen through the other.
+func (fr *Frame) functionalElem(st *State, q *PtrV, t types.Type) Value {
+	tc := fr.topContract()
+	if tc == nil || tc.Options["functional-nested-slices"] == "" || len(q.Path) != 1 || q.Path[0].T == nil {
+		return nil
+	}
+	sl, ok := t.Underlying().(*types.Slice)
+	if !ok {
+		return nil
+	}
+	s := fr.v.scalarSort(sl.Elem())
+	if s == nil {
+		return nil
+	}
+	v, F := fr.v, fr.v.F
+	idx := q.Path[0].T
+	base := fmt.Sprintf("%s#%d!v%d", sanitize(q.Obj.Name), q.Obj.ID, st.uver[q.Obj])
+	lens := F.Var(base+"@lens", arraySort(SInt))
+	caps := F.Var(base+"@caps", arraySort(SInt))
+	cont := F.Var(base+"@cont", arraySort(arraySort(s)))
+	o := v.newObject(q.Obj.Name+"[row]", t, q.Obj.Entry)
+	o.UFrom = q.Obj
+	st.mem[o] = &ArrV{Arr: F.Select(cont, idx), Elem: sl.Elem()}
+	ln, cp := F.Select(lens, idx), F.Select(caps, idx)
+	if v.specDepth == 0 {
+		st.pc = F.And(st.pc, F.Le(F.I64(0), ln), F.Le(ln, cp), F.Le(cp, F.Int(big.NewInt(1<<40))))
+		v.assume("option functional-nested-slices: the rows of " + q.Obj.Name + " are functions of the index; rows read at indices that are not the same term are treated as distinct objects")
+	}
+	return &SliceV{Obj: o, Off: F.I64(0), Len: ln, Cap: cp}
+}
+
+// bumpU starts a new version of the functions that stand for the memory of an unmodelled slice of slices.
+func (v *Verifier) bumpU(st *State, o *Object) {
+	if o == nil {
+		return
+	}
+	if st.uver == nil {
+		st.uver = map[*Object]int{}
+	}
+	v.fresh++
+	st.uver[o] = v.fresh
 }
 
 var traceOn = os.Getenv("GCV_TRACE") != ""
@@ -873,6 +931,7 @@ func (fr *Frame) store(st *State, p Value, nv Value, cond *Term) {
 		fr.v.noteEscape(fr, st, nv, q.Obj)
 		if q.Obj.Unmodelled {
 			// the cells of this slice may have changed: forget what was read from it
+			fr.v.bumpU(st, q.Obj)
 			pre := fmt.Sprintf("%d|", q.Obj.ID)
 			for k := range st.uload {
 				if strings.HasPrefix(k, pre) {
@@ -1028,6 +1087,24 @@ func (v *Verifier) merge2(a, b *State) *State {
 		for k, x := range b.cnt {
 			if x > n.cnt[k] {
 				n.cnt[k] = x
+			}
+		}
+	}
+	if len(a.uver) > 0 || len(b.uver) > 0 {
+		// versions of functional nested slices: kept when both sides agree, otherwise a new (unconstrained) version
+		n.uver = map[*Object]int{}
+		for o, x := range a.uver {
+			if b.uver[o] == x {
+				n.uver[o] = x
+			} else {
+				v.fresh++
+				n.uver[o] = v.fresh
+			}
+		}
+		for o := range b.uver {
+			if _, ok := a.uver[o]; !ok {
+				v.fresh++
+				n.uver[o] = v.fresh
 			}
 		}
 	}
